@@ -342,6 +342,16 @@ where
                     .failure_rate_threshold(0.5)
                     .wait_duration_in_open(Duration::from_millis(15));
             }
+            if mode == 1 {
+                // readiness: the breaker goes through open -> half-open -> closed cycles, so that
+                // rejections, trial calls and ordinary calls all occur
+                b = b
+                    .sliding_window_size(2)
+                    .minimum_number_of_calls(2)
+                    .failure_rate_threshold(0.5)
+                    .permitted_calls_in_half_open(1)
+                    .wait_duration_in_open(Duration::from_millis(4));
+            }
             for l in &listeners {
                 let (a, c, d, e, f, g) = (l.clone(), l.clone(), l.clone(), l.clone(), l.clone(), l.clone());
                 b = b
@@ -977,6 +987,11 @@ async fn readiness(
             Ev::Resolve { task, out, .. } if *task == tk => Some(out.clone()),
             _ => None,
         });
+        if has(2) && resolve.is_some() {
+            // with the breaker cycling, rejections (and what outer layers make of them) are
+            // legitimate outcomes; the contract checks above are what this sub-check is about
+            continue;
+        }
         if any_ready_err {
             if resolve.is_none() {
                 v.push(format!(
